@@ -107,26 +107,32 @@ Definition declared (M : module) (n : str) : bool := str_in n (map d_name (m_dec
 Definition public_list (M : module) : list str :=
   map d_name (filter (fun d => is_public (d_perm d)) (m_decls M))
   ++ map fst (filter (fun a => snd a && negb (declared M (fst a))) (m_access M)).
+(* ... and those that carry a "private" attribute *)
+Definition private_list (M : module) : list str :=
+  map fst (filter (fun a => negb (snd a) && negb (declared M (fst a))) (m_access M)).
 Definition should_be_public (M : module) (n : str) : bool :=
-  is_public (m_default M) || str_in n (public_list M).
+  str_in n (public_list M) || (is_public (m_default M) && negb (str_in n (private_list M))).
 Definition filter_public (M : module) (t : table) : table :=
   filter (fun kv => should_be_public M (fst kv)) t.
 
-(* get_used_entities.  Without ONLY the rename list is ignored; an empty ONLY list is not
-   recognised by ONLY_RE (the look-ahead needs one more character), so everything is returned;
-   used_names is a dict remote -> local (the last item naming a remote wins). *)
-Definition used_names (items : list (str * str)) : list (str * str) :=
-  update [] (map (fun lr => (snd lr, fst lr)) items).
-Definition used_entities (tpub : table) (u : use_stmt) : table :=
+(* renamed_entities: the names of the used module that a USE statement gives another local name *)
+Definition proper_renames (u : use_stmt) : list (str * str) :=
+  filter (fun lr => negb (str_eqb (fst lr) (snd lr)))
+         (match u_only u with Some items => items | None => u_renames u end).
+(* FortranCodeUnit.correlate: per used module, the names renamed by any USE statement of the scope *)
+Definition use_hidden (M : module) (t : str) : list str :=
+  flat_map (fun u => if str_eqb (u_target u) t then map snd (proper_renames u) else []) (m_uses M).
+
+(* get_used_entities: the items (local name, name in the module) in statement order; each item
+   whose name the module exports adds result[local] = entity.  Without ONLY the result starts
+   with every exported entity whose name is not renamed (by this statement or, [hid], by another
+   USE statement of the same module in the scope). *)
+Definition rename_list (tpub : table) (items : list (str * str)) : list (str * ent) :=
+  flat_map (fun lr => match assoc_get (snd lr) tpub with Some e => [(fst lr, e)] | None => [] end) items.
+Definition used_entities (tpub : table) (hid : list str) (u : use_stmt) : table :=
   match u_only u with
-  | None => tpub
-  | Some [] => tpub
-  | Some items =>
-    let un := used_names items in
-    fold_left (fun res kv => match assoc_get (fst kv) un with
-                             | Some l => assoc_set l (snd kv) res
-                             | None => res
-                             end) tpub []
+  | None => update (filter (fun kv => negb (str_in (fst kv) hid)) tpub) (rename_list tpub (u_renames u))
+  | Some items => update [] (rename_list tpub items)
   end.
 
 (* one USE statement of M; [h] gives the current (pub, all) tables of a module object *)
@@ -135,7 +141,7 @@ Definition use_step (g : graph) (M : module) (h : module -> tabs) (acc : tabs) (
   match find_module g (u_target u) with
   | None => acc                      (* the name stays a string: skipped *)
   | Some T =>
-    let used := used_entities (fst (h T)) u in
+    let used := used_entities (fst (h T)) (use_hidden M (u_target u)) u in
     (update (fst acc) (filter_public M used), update (snd acc) used)
   end.
 Definition mstep (c : cls) (g : graph) (M : module) (h : module -> tabs) (pub0 : table) : tabs :=
@@ -263,12 +269,13 @@ Definition own_public (c : cls) (M : module) : list (str * ent) :=
   map (entry M) (filter (fun d => negb (is_private (d_perm d))) (decls_of c M)).
 Definition own_scope (c : cls) (M : module) : list (str * ent) := map (entry M) (decls_of c M).
 
-Definition proper_renames (u : use_stmt) : list (str * str) :=
-  filter (fun lr => negb (str_eqb (fst lr) (snd lr)))
-         (match u_only u with Some items => items | None => u_renames u end).
-(* use-names that appear in a rename of any USE statement of M for module t *)
+(* use-names that appear in a rename (local => name, local different from name) of any USE
+   statement of M for module t: Fortran 2018 14.2.2 *)
 Definition hidden (M : module) (t : str) : list str :=
-  flat_map (fun u => if str_eqb (u_target u) t then map snd (proper_renames u) else []) (m_uses M).
+  flat_map (fun u => if str_eqb (u_target u) t
+                     then map snd (filter (fun lr => negb (str_eqb (fst lr) (snd lr)))
+                                          (match u_only u with Some items => items | None => u_renames u end))
+                     else []) (m_uses M).
 
 Definition pick (items : list (str * str)) (accT : list (str * ent)) : list (str * ent) :=
   flat_map (fun lr => map (fun re => (fst lr, snd re))
@@ -358,36 +365,6 @@ Definition wf_graph (g : graph) : bool :=
   && forallb (fun M => forallb (wf_nested g M) (m_nested M)) g
   && forallb (fun M => forallb (fun u => negb (str_eqb (u_target u) (m_name M)))
                                (flat_map s_uses (m_nested M))) g.
-
-(* regions of the known findings (decidable on the input) *)
-(* 1: a module is used without ONLY while some USE statement of the same scope renames one of
-      its entities (includes  use a, bar => foo ) *)
-Definition region_rename_m (M : module) : bool :=
-  existsb (fun u => match u_only u with
-                    | None => existsb (fun u' => str_eqb (u_target u') (u_target u)
-                                                 && negb (match proper_renames u' with [] => true | _ => false end))
-                                      (m_uses M)
-                    | Some _ => false
-                    end) (m_uses M).
-(* 2: PRIVATE statement for a name that is not an own declaration, in a default-public module *)
-Definition region_private_m (M : module) : bool :=
-  is_public (m_default M) && existsb (fun a => negb (snd a) && negb (declared M (fst a))) (m_access M).
-(* 3: USE t, ONLY: with an empty list *)
-Definition region_only_empty_m (M : module) : bool :=
-  existsb (fun u => match u_only u with Some [] => true | _ => false end) (m_uses M).
-(* 4: an ONLY list naming the same entity twice ( only: foo, bar => foo ) *)
-Definition region_only_dup_m (M : module) : bool :=
-  existsb (fun u => match u_only u with Some items => negb (nodup_b (map snd items)) | None => false end) (m_uses M).
-(* the regions 1, 3, 4 are about USE statements wherever they stand: the statements of nested
-   scopes count (each scope on its own, as the rules are per scoping unit) *)
-Definition with_nested (r : module -> bool) (M : module) : bool :=
-  r M || existsb (fun S => r (as_module M S)) (m_nested M).
-Definition region_rename (g : graph) := existsb (with_nested region_rename_m) g.
-Definition region_private (g : graph) := existsb region_private_m g.
-Definition region_only_empty (g : graph) := existsb (with_nested region_only_empty_m) g.
-Definition region_only_dup (g : graph) := existsb (with_nested region_only_dup_m) g.
-Definition no_region (g : graph) : bool :=
-  negb (region_rename g) && negb (region_private g) && negb (region_only_empty g) && negb (region_only_dup g).
 
 (* the tables FORD ends with for module M denote exactly the Spec's sets *)
 Definition tables_ok (c : cls) (g : graph) (st : state) (M : module) : Prop :=
